@@ -322,7 +322,11 @@ def plan(tier: str, seed: int) -> list[dict]:
     per = len(vectors) // 15 + 1
     for i in range(0, len(vectors), per):
         shards.append({"seed": seed, "vectors": vectors[i : i + per], "random": 0})
-    shards.append({"seed": seed, "vectors": [], "random": 150 if tier == "quick" else 6000})
+    if tier == "quick":
+        shards.append({"seed": seed, "vectors": [], "random": 150})
+    else:
+        for j in range(16):
+            shards.append({"seed": seed * 100 + j + 1, "vectors": [], "random": 2500})
     return shards
 
 
